@@ -53,13 +53,17 @@ ASSUMPTIONS = [
 ]
 BOUNDS = {
     'quick': 'defs: kind corpus {1, abc, [1,2,3], null, {a=>1}, true} (<= 2 eager positions, else 2 kinds); lazy: depth 1 full alphabet, depth 2 one nested '
-             'construct with alphabet {true, null, 0}; stream: lists <= 2 over {1,2}, 2 chained operators; binders: fixed list',
+             'construct with alphabet {true, null, 0}; stream: lists <= 2 over {1,2}, 2 chained operators (second stage also memorize / defaultIfEmpty), on 2 engine profiles {limits+quota, no options}; binders: fixed list',
     'thorough': 'defs: kind corpus of 8 kinds (<= 2 eager positions, 6 kinds for 3, 4 for 4, 2 beyond); lazy: depth 2 with the full alphabet, and '
                 'both slots of the two-slot constructs nested with alphabet {true, null, 0}; '
-                'stream: lists <= 3 over {1,2,3}, 2 chained operators; binders: fixed list',
+                'stream: lists <= 3 over {1,2,3}, 2 chained operators (second stage also memorize / defaultIfEmpty), on 4 engine profiles {limits+quota, no options, quota only, limit only}; binders: fixed list',
 }
 
 OPTIONS = {'yaql.limitIterators': 500, 'yaql.memoryQuota': 5000000}
+# engine profiles the streaming part is repeated under: the limits change how iterators are wrapped
+# (limit_iterable, limit_memory_usage, memorize), never which elements are computed
+PROFILES = {'limits': OPTIONS, 'no-options': {}, 'quota-only': {'yaql.memoryQuota': 5000000},
+            'limit-only': {'yaql.limitIterators': 500}}
 
 # ---------------------------------------------------------------------------------
 # running a probe
@@ -78,14 +82,18 @@ def setup():
         ctx.register_function(then)
         _state['ctx'], _state['log'] = ctx, log
         _state['eng'] = yq.engine(OPTIONS, allow_delegates=True)
+        _state['engines'] = {'limits': _state['eng']}
     return _state
 
 
-def observe(text):
+def observe(text, profile='limits'):
     s = setup()
     del s['log'][:]
+    eng = s['engines'].get(profile)
+    if eng is None:
+        eng = s['engines'][profile] = yq.fresh_engine(PROFILES[profile], allow_delegates=True)
     try:
-        st = s['eng'](text)
+        st = eng(text)
     except Exception as e:
         return None, ('parse', type(e).__name__, str(e)[:100])
     try:
@@ -488,6 +496,10 @@ def stream_ops(base):
     out.append(('aggregate', lambda src: ('meth', src, 'aggregate', [lam2(base, SUM12), ('lit', 0)])))
     out.append(('aggregate', lambda src: ('meth', src, 'aggregate', [lam2(base, SUM12)])))
     out.append(('accumulate', lambda src: ('meth', src, 'accumulate', [lam2(base, SUM12), ('lit', 0)])))
+    if base >= 100:
+        # buffering stages without a lambda of their own, behind a stage that computes its elements lazily
+        out.append(('memorize', lambda src: ('meth', src, 'memorize', [])))
+        out.append(('defaultIfEmpty', lambda src: ('meth', src, 'defaultIfEmpty', [('list', [('lit', 7)])])))
     return out
 
 
@@ -637,11 +649,11 @@ def culprit(ast, pattern, log):
     return path[-2][0] if len(path) > 1 else path[-1][0]
 
 
-def judge_model(res, part, label, ast):
+def judge_model(res, part, label, ast, profile='limits'):
     text = I.text(ast)
-    res.case((part, text))
+    res.case((part, text) if profile == 'limits' else (part, text, profile))
     pattern, exp = M.trace(ast)
-    log, out = observe(text)
+    log, out = observe(text, profile)
     res.evaluations += 1
     if pattern is None or log is None:
         res.out_of_domain += 1
@@ -656,7 +668,7 @@ def judge_model(res, part, label, ast):
     res.outcomes['%s %s ticks=%s' % (part, 'value' if out[0] == 'v' else 'error', min(len(log), 6))] += 1
     if not ok:
         res.fail('order construct=%s part=%s' % (culprit(ast, pattern, log), part),
-                 {'kind': 'model', 'part': part, 'label': label, 'ast': ast},
+                 {'kind': 'model', 'part': part, 'label': label, 'ast': ast, 'profile': profile},
                  'text %s: observed ticks %r, outcome %r; expected pattern %r (model outcome %r)'
                  % (text, log, out[:2], pattern, exp))
 
@@ -668,7 +680,8 @@ def job_model(part, tier, k, K):
     for i, (label, ast) in enumerate(cases):
         if i % K != k:
             continue
-        judge_model(res, part, label, ast)
+        for profile in (('limits',) if part != 'stream' else ('limits', 'no-options') if tier == 'quick' else sorted(PROFILES)):
+            judge_model(res, part, label, ast, profile)
         if res.states % 1500 == 1:
             res.sample({'text': I.text(ast), 'pattern': repr(M.trace(ast)[0])}, limit=2)
     return res
@@ -784,6 +797,6 @@ def replay(case):
     ast = case['ast']
     text = I.text(ast)
     pattern, exp = M.trace(ast)
-    log, out = observe(text)
+    log, out = observe(text, case.get('profile') or 'limits')
     return {'text': text, 'observed': repr((log, out[:2])), 'expected': repr(pattern),
             'ok': pattern is None or (log is not None and M.admits(pattern, log))}
